@@ -241,7 +241,15 @@ def gen_program(rng, conflict=False):
                 phases[pn].append(["eassign", a, i, ["num", 3], ["*", ["var", i], rhs]])
                 loc["int"].append(i)
             elif r < 0.63 and loc["arr"]:
-                if rng.random() < 0.5:
+                if loc["carr"] and rng.random() < 0.35:
+                    # a sum of a real and a complex array (either may be known first): complex array
+                    terms = [["var", rng.choice(loc["arr"])], ["var", rng.choice(loc["carr"])]]
+                    if rng.random() < 0.5:
+                        terms.append(["var", rng.choice(loc["arr"])])
+                    if rng.random() < 0.3:
+                        terms.reverse()
+                    phases[pn].append(["assign", lhs("sb", "carr"), ["+"] + terms])
+                elif rng.random() < 0.5:
                     rhs = ["+", ["var", rng.choice(loc["arr"])],
                            ["*", realexpr(1), ["var", rng.choice(loc["arr"])]]]
                     phases[pn].append(["assign", lhs("b", "arr"), rhs])
